@@ -96,6 +96,13 @@ class Ref:
         self.rules[r] = self.rules.get(r, 0) + 1
 
     def ev(self, a, frame, stack=(), full=None):
+        """Size-guarded entry (fuelled runs only): every intermediate text of a run with a cycle marker is bounded."""
+        t = self._ev(a, frame, stack, full)
+        if self.cycle_marker is not None and isinstance(t, str) and len(t) > self.max_len:
+            raise FuelExhausted()
+        return t
+
+    def _ev(self, a, frame, stack=(), full=None):
         """full: True = everything below is fully expanded (arguments of an expanded call)."""
         if full is None:
             full = self.selection is None
